@@ -444,6 +444,8 @@ def getitem(ex, obj, idx, node):
         except TypeError as e:
             raise SymRaise(TypeError, (str(e),), origin=ex.where(node))
     if isinstance(obj, dict):
+        if id(obj) in getattr(ex, 'symkey_dicts', ()):
+            raise Unsupported('lookup in a dict that holds symbolic keys')
         if is_abstract(idx):
             if isinstance(idx, SymVal):
                 # symbolic key on concrete dict: fork over keys of the same sort + missing
@@ -520,7 +522,11 @@ def setitem(ex, obj, idx, v, node):
     if isinstance(obj, ModelObj):
         return obj.m_setitem(ex, idx, v)
     if isinstance(obj, (list, dict)):
-        if is_abstract(idx) and not isinstance(idx, (SymObj,)):
+        if isinstance(obj, dict) and isinstance(idx, SymVal) and ex.prov(obj) == 'fresh':
+            # symbolic key in a dict allocated by the analysed code: stored under the term; later lookups in this dict are
+            # refused (Unsupported) because key equality would be symbolic
+            ex.symkey_dicts = getattr(ex, 'symkey_dicts', set()) | {id(obj)}
+        elif is_abstract(idx) and not isinstance(idx, (SymObj,)):
             raise Unsupported('symbolic subscript store')
         if isinstance(idx, SymObj):
             raise Unsupported('object as dict key store')
@@ -628,6 +634,8 @@ def concrete_method(ex, recv, name, args, kwargs, node):
             except TypeError as e:
                 raise SymRaise(TypeError, (str(e),), origin=ex.where(node))
         if name == 'get':
+            if id(recv) in getattr(ex, 'symkey_dicts', ()):
+                raise Unsupported('lookup in a dict that holds symbolic keys')
             if isinstance(args[0], SymVal):
                 keys = [k for k in recv if to_z3(k)[1] == args[0].sort]
                 for k in keys:
